@@ -26,4 +26,5 @@ for d in sorted(glob.glob(os.path.join(root, "*"))):
     res = {"1": "VIOLATION", "0": "**missed**"}.get(rc, rc)
     if "no-failing-input-found" in t:
         res += " (no-failing-input-found)"
-    print(f"| {sid} | {meta.get('needs_to_manifest','')} | {res} | {by} |")
+    needs = meta.get('needs_to_manifest', '').replace('|', '¦')
+    print(f"| {sid} | {needs} | {res} | {by} |")
